@@ -1,4 +1,4 @@
-//go:build verif
+//go:build verif && !verif_nohook_base58
 
 package base58
 
